@@ -1,8 +1,12 @@
 package c02
 
 import (
+	"bytes"
+	"encoding/json"
 	"fmt"
+	"math"
 	"sort"
+	"strconv"
 	"strings"
 
 	"github.com/wundergraph/graphql-go-tools/v2/pkg/engine/resolve"
@@ -22,6 +26,7 @@ type gqlError struct {
 	path    rpath
 	hasPath bool
 	message string
+	channel string // "errors" or "valueCompletion" (extensions.valueCompletion with the value-completion option)
 }
 
 type verdict struct {
@@ -33,6 +38,22 @@ type verdict struct {
 	dataNull    bool
 	expected    *jv
 	expectedSet bool
+	counts      map[string]int64
+	sets        map[string][]string
+}
+
+func (v *verdict) count(name string) {
+	if v.counts == nil {
+		v.counts = map[string]int64{}
+	}
+	v.counts[name]++
+}
+
+func (v *verdict) observe(set, item string) {
+	if v.sets == nil {
+		v.sets = map[string][]string{}
+	}
+	v.sets[set] = append(v.sets[set], item)
 }
 
 func (v *verdict) add(kind, msg string, match map[string]string) {
@@ -183,6 +204,94 @@ type walker struct {
 	replaced  []rpath // out is null, the payload value there is not
 	class     string
 	ambiguous bool
+	opts      *renderOpts
+	// floatDiffs: Float leaves already reported as differing under float truncation; the whole-data
+	// comparison then only pins down the structure and the other leaves
+	floatDiffs int
+}
+
+// doubleDistance classifies how far two doubles are apart (in representable values).
+func doubleDistance(a, b float64) string {
+	if math.IsInf(a, 0) || math.IsInf(b, 0) || math.IsNaN(a) || math.IsNaN(b) {
+		return "not-finite"
+	}
+	if (a < 0) != (b < 0) && a != 0 && b != 0 {
+		return "sign-differs"
+	}
+	ua, ub := math.Float64bits(math.Abs(a)), math.Float64bits(math.Abs(b))
+	d := ua - ub
+	if ub > ua {
+		d = ub - ua
+	}
+	switch {
+	case d <= 1:
+		return "1-ulp"
+	case d <= 16:
+		return "2-16-ulp"
+	}
+	return "more"
+}
+
+// two63 = 2^63: a float of this magnitude or more does not fit an int64.
+const two63 = 9223372036854775808.0
+
+// leafEqual: is the rendered leaf the payload's value. Default: the same JSON value, numbers compared
+// exactly by value. Two options deliberately re-spell a leaf:
+//   - float truncation: an integral Float may be printed without its fraction / exponent; GraphQL's
+//     Float is an IEEE 754 double, so the rendered literal must denote the same double as the payload's
+//   - __typename renaming: a configured From may be rendered as its To (whether it is, is not judged)
+//
+// extra carries match facts when the leaf differs under such an option.
+func (w *walker) leafEqual(n resolve.Node, out, jval *jv) (ok bool, extra map[string]string) {
+	switch t := n.(type) {
+	case *resolve.Float:
+		if w.opts != nil && w.opts.Truncate && out.k == jNum && jval.k == jNum {
+			w.v.count("floats_compared_under_truncation")
+			pf, perr := strconv.ParseFloat(jval.n, 64)
+			of, oerr := strconv.ParseFloat(out.n, 64)
+			beyond := perr == nil && math.Abs(pf) >= two63
+			integral := perr == nil && pf == math.Trunc(pf)
+			if beyond {
+				w.v.count("floats_beyond_int64_under_truncation")
+			}
+			if integral {
+				w.v.count("floats_integral_under_truncation")
+			} else {
+				w.v.count("floats_fractional_under_truncation")
+			}
+			if out.n != jval.n {
+				w.v.count("floats_respelled_under_truncation")
+			}
+			if numEqual(out.n, jval.n) {
+				return true, nil
+			}
+			if perr == nil && oerr == nil && pf == of {
+				w.v.count("floats_equal_as_double_only_under_truncation")
+				return true, nil
+			}
+			w.floatDiffs++
+			dist := "unparsable"
+			if perr == nil && oerr == nil {
+				dist = doubleDistance(pf, of)
+			}
+			return false, map[string]string{"option": "truncate-floats", "payload_beyond_int64": fmt.Sprint(beyond), "payload_integral": fmt.Sprint(integral), "double_distance": dist}
+		}
+	case *resolve.String:
+		if t.IsTypeName && w.opts != nil && len(w.opts.Rename) > 0 && out.k == jStr && jval.k == jStr {
+			if to, hit := w.opts.Rename[jval.s]; hit {
+				switch out.s {
+				case to:
+					w.v.count("typenames_rendered_renamed")
+					return true, nil
+				case jval.s:
+					w.v.count("typenames_rename_not_applied")
+					return true, nil
+				}
+				return false, map[string]string{"option": "rename-typenames"}
+			}
+		}
+	}
+	return jequal(out, jval), nil
 }
 
 func (w *walker) violate(kind string, resp rpath, n resolve.Node, msg string, extra map[string]string) {
@@ -310,8 +419,12 @@ func (w *walker) check(n resolve.Node, jval, out *jv, resp rpath, stack []string
 		w.violate("typesafe.kind", resp, n, "value "+clip(out.String(), 80)+" does not conform to the declared type", map[string]string{"rendered": out.k.String()})
 		return
 	}
-	if jval.isNull() || !jequal(out, jval) {
+	if jval.isNull() {
 		w.violate("value.leaf-differs", resp, n, "rendered leaf "+clip(out.String(), 80)+" differs from the payload's "+clip(jval.String(), 80), nil)
+		return
+	}
+	if same, extra := w.leafEqual(n, out, jval); !same {
+		w.violate("value.leaf-differs", resp, n, "rendered leaf "+clip(out.String(), 80)+" differs from the payload's "+clip(jval.String(), 80), extra)
 	}
 }
 
@@ -415,12 +528,67 @@ type renderInput struct {
 	opaque map[*jv]bool
 	offs   []offence
 	out    []byte
+	opts   *renderOpts // nil = default options
+}
+
+// escapeForwardedKeys rewrites every `"<raw key>":` of the subgraph's extensions object whose key
+// needs escaping into its escaped spelling.
+func escapeForwardedKeys(out []byte, bodyExtensions string) ([]byte, bool) {
+	ext, _, err := parseStrict([]byte(bodyExtensions))
+	if err != nil || ext.k != jObj {
+		return out, false
+	}
+	changed := false
+	for _, k := range ext.keys {
+		esc, _ := json.Marshal(k)
+		raw := `"` + k + `"`
+		if string(esc) == raw {
+			continue
+		}
+		if bytes.Contains(out, []byte(raw+":")) {
+			out = bytes.ReplaceAll(out, []byte(raw+":"), append(append([]byte(nil), esc...), ':'))
+			changed = true
+		}
+	}
+	return out, changed
+}
+
+// parseErrorList reads a list of GraphQL error objects (errors, or extensions.valueCompletion).
+func parseErrorList(v *verdict, ev *jv, channel, class string) (errs []gqlError) {
+	for _, e := range ev.a {
+		if e.k != jObj || e.get("message") == nil || e.get("message").k != jStr {
+			v.add("envelope.errors", "an entry of "+channel+" is not an object with a string message: "+clip(e.String(), 120), map[string]string{"class": class, "channel": channel})
+			continue
+		}
+		ge := gqlError{message: e.get("message").s, channel: channel}
+		if pv := e.get("path"); pv != nil {
+			p, ok := pathFromJSON(pv)
+			if !ok {
+				v.add("envelope.errors", "a path in "+channel+" is not a list of strings and non-negative integers: "+clip(pv.String(), 120), map[string]string{"class": class, "channel": channel})
+				continue
+			}
+			ge.path, ge.hasPath = p, true
+		}
+		errs = append(errs, ge)
+	}
+	return errs
 }
 
 func checkRender(in renderInput) *verdict {
 	v := &verdict{}
 	class := classify(in.offs)
 	doc, dup, err := parseStrict(in.out)
+	if err != nil && in.opts != nil && in.opts.ExtKeyEscapes {
+		// The subgraph sent an extensions key that needs JSON escaping and extension forwarding is on.
+		// When escaping exactly those keys makes the bytes valid, that is the cause; the repaired
+		// document is judged further so that nothing else is masked.
+		if fixed, changed := escapeForwardedKeys(in.out, in.opts.BodyExtensions); changed {
+			if d2, dup2, err2 := parseStrict(fixed); err2 == nil {
+				v.add("json.invalid", "the rendered bytes are not one valid JSON document: a forwarded subgraph extensions key is written without JSON escaping", map[string]string{"class": class, "cause": "forwarded-extension-key-not-escaped"})
+				doc, dup, err = d2, dup2, nil
+			}
+		}
+	}
 	if err != nil {
 		v.add("json.invalid", "the rendered bytes are not one valid JSON document: "+err.Error(), map[string]string{"class": class})
 		return v
@@ -442,42 +610,77 @@ func checkRender(in renderInput) *verdict {
 		v.add("envelope.shape", "the response has no data entry", map[string]string{"class": class})
 		return v
 	}
+	opts := in.opts
+	if ext := doc.get("extensions"); ext != nil {
+		v.count("responses_with_extensions")
+		if ext.k != jObj {
+			v.add("envelope.shape", "extensions is present but not a JSON object: "+clip(ext.String(), 120), map[string]string{"class": class})
+		} else {
+			for _, k := range ext.keys {
+				v.observe("extension_keys", clip(k, 40))
+			}
+		}
+	}
+	if opts != nil && opts.SkipLoader {
+		// ExecutionOptions.SkipLoader: nothing was loaded and the renderer deliberately writes
+		// data:null (+ extensions) without errors. Only the syntax and the envelope are judged.
+		v.count("not_judged_skip_loader_beyond_syntax_and_envelope")
+		if data.k != jNull {
+			v.count("skip_loader_rendered_data")
+		}
+		return v
+	}
 	var errs []gqlError
 	if ev := doc.get("errors"); ev != nil {
 		if ev.k != jArr || len(ev.a) == 0 {
 			v.add("envelope.errors", "errors is present but not a non-empty list", map[string]string{"class": class})
 		} else {
-			for _, e := range ev.a {
-				if e.k != jObj || e.get("message") == nil || e.get("message").k != jStr {
-					v.add("envelope.errors", "an error entry is not an object with a string message: "+clip(e.String(), 120), map[string]string{"class": class})
-					continue
+			errs = parseErrorList(v, ev, "errors", class)
+		}
+	}
+	// With the value-completion option the renderer reports null / invalid-enum / invalid-__typename
+	// replacements in extensions.valueCompletion instead of errors: same entry shape, and the entries
+	// are read as the reports the statement asks for.
+	var reports []gqlError
+	reports = append(reports, errs...)
+	if opts != nil && opts.ValueCompletion {
+		if vc := doc.get("extensions").get("valueCompletion"); vc != nil {
+			if vc.k != jArr {
+				v.add("envelope.errors", "extensions.valueCompletion is not a list", map[string]string{"class": class, "channel": "valueCompletion"})
+			} else {
+				l := parseErrorList(v, vc, "valueCompletion", class)
+				for range l {
+					v.count("value_completion_entries")
 				}
-				ge := gqlError{message: e.get("message").s}
-				if pv := e.get("path"); pv != nil {
-					p, ok := pathFromJSON(pv)
-					if !ok {
-						v.add("envelope.errors", "an error path is not a list of strings and non-negative integers: "+clip(pv.String(), 120), map[string]string{"class": class})
-						continue
-					}
-					ge.path, ge.hasPath = p, true
-				}
-				errs = append(errs, ge)
+				reports = append(reports, l...)
 			}
 		}
+	}
+	// the subgraph itself sent errors (resolver driver): the loader forwards / wraps them per the
+	// error options; they are not reports of the renderer, their paths are the subgraph's
+	subgraphErrors := opts != nil && opts.BodyErrors != "" && opts.BodyErrors != "[]"
+	if subgraphErrors {
+		v.count("not_judged_error_paths_and_coverage_subgraph_sent_errors")
 	}
 	v.errors = int64(len(errs))
 
 	// always: every error path denotes a position of T under j
-	for _, e := range errs {
-		if !e.hasPath {
+	for _, e := range reports {
+		if !e.hasPath || subgraphErrors {
 			continue
 		}
 		v.errorPaths++
+		if e.channel == "valueCompletion" {
+			v.count("value_completion_paths_checked")
+		}
 		pi := locate(in.root, in.j, in.opaque, e.path)
 		if pi.real {
 			continue
 		}
 		m := map[string]string{"reason": pi.reason, "doubled_last_element": "false", "message_class": messageClass(e.message)}
+		if e.channel != "errors" {
+			m["channel"] = e.channel
+		}
 		if n := len(e.path); n >= 2 && !e.path[n-1].isI && e.path[n-1] == e.path[n-2] {
 			pp := locate(in.root, in.j, in.opaque, e.path[:n-1])
 			if pp.real || pp.reason == "data-key-not-response-key" {
@@ -488,7 +691,7 @@ func checkRender(in renderInput) *verdict {
 	}
 
 	// the joint walk
-	w := &walker{v: v, class: class}
+	w := &walker{v: v, class: class, opts: opts}
 	if data.k == jNull {
 		v.dataNull = true
 		w.replaced = append(w.replaced, rpath{})
@@ -512,14 +715,20 @@ func checkRender(in renderInput) *verdict {
 			v.add("nulled.unjustified", "position "+r.String()+" was nulled although no offending value lies at or below it", map[string]string{"class": class, "data_null": fmt.Sprint(len(r) == 0)})
 			continue
 		}
+		if subgraphErrors {
+			continue
+		}
 		covered := false
-		for _, e := range errs {
+		for _, e := range reports {
 			if !e.hasPath {
 				continue
 			}
 			for _, o := range under {
 				if e.path.equal(o.Resp) {
 					covered = true
+					if e.channel == "valueCompletion" {
+						v.count("replacements_covered_by_value_completion")
+					}
 				}
 			}
 		}
@@ -528,7 +737,7 @@ func checkRender(in renderInput) *verdict {
 		}
 		// why: which kind of error path (if any) was reported instead of an offending position
 		cause := "no-error"
-		if len(errs) > 0 {
+		if len(reports) > 0 {
 			cause = "errors-without-path"
 		}
 		rank := map[string]int{"no-error": 0, "errors-without-path": 1, "error-elsewhere": 2, "error-below-offence": 3, "error-at-ancestor": 4, "error-at-data-key-path": 5, "error-at-doubled-data-key-path": 6, "error-at-doubled-path": 7}
@@ -540,7 +749,7 @@ func checkRender(in renderInput) *verdict {
 		nodes := map[string]bool{}
 		for _, o := range under {
 			nodes[o.NodeKind] = true
-			for _, e := range errs {
+			for _, e := range reports {
 				if !e.hasPath {
 					continue
 				}
@@ -561,6 +770,9 @@ func checkRender(in renderInput) *verdict {
 			}
 		}
 		facts := map[string]string{"cause": cause}
+		if opts != nil && opts.ValueCompletion {
+			facts["option"] = "value-completion"
+		}
 		_ = nodes
 		if cause != "error-at-doubled-path" && cause != "error-at-data-key-path" && cause != "error-at-doubled-data-key-path" {
 			inacc := false
@@ -584,7 +796,7 @@ func checkRender(in renderInput) *verdict {
 		}
 		v.exact = true
 		v.expected, v.expectedSet = exp, true
-		same := (exp == nil && data.k == jNull) || (exp != nil && data.k != jNull && jequal(exp, data))
+		same := (exp == nil && data.k == jNull) || (exp != nil && data.k != jNull && jequalUnder(exp, data, opts, w.floatDiffs > 0))
 		if !same {
 			kind := "data.not-projection"
 			msg := "well-typed payload: rendered data differs from the projection of the payload through the selection"
@@ -601,13 +813,18 @@ func checkRender(in renderInput) *verdict {
 					missingOnly = true
 				}
 			}
-			if len(errs) > 0 && !missingOnly {
+			if subgraphErrors {
+				// errors are present because the subgraph sent some
+			} else if len(errs) > 0 && !missingOnly {
 				v.add("errors.on-well-typed", fmt.Sprintf("well-typed payload but the response carries %d error(s): %s", len(errs), clip(errs[0].message, 120)), map[string]string{"class": class})
-			}
-			if doc.get("errors") != nil && len(errs) == 0 && !missingOnly {
+			} else if doc.get("errors") != nil && len(errs) == 0 && !missingOnly {
 				v.add("errors.on-well-typed", "well-typed payload but an errors entry is present", map[string]string{"class": class})
 			}
-		} else {
+			if len(reports) > len(errs) && !missingOnly {
+				// the statement speaks of errors only; value-completion entries for well-typed data are counted
+				v.count("not_judged_value_completion_entries_on_well_typed")
+			}
+		} else if !subgraphErrors {
 			// each absorption point needs an error at an offending position inside it
 			for _, r := range rr.absorbed {
 				covered := false
@@ -615,7 +832,7 @@ func checkRender(in renderInput) *verdict {
 					if o.Harmless || !o.Resp.hasPrefix(r) {
 						continue
 					}
-					for _, e := range errs {
+					for _, e := range reports {
 						if e.hasPath && e.path.equal(o.Resp) {
 							covered = true
 						}
@@ -638,9 +855,63 @@ func checkRender(in renderInput) *verdict {
 	return v
 }
 
+// jequalUnder: jequal with the deliberate re-spellings of the options (see walker.leafEqual; the
+// joint walk judges each leaf against its node type, this comparison pins down where the nulls are).
+func jequalUnder(exp, out *jv, o *renderOpts, anyNumber bool) bool {
+	if o == nil || (!o.Truncate && len(o.Rename) == 0) {
+		return jequal(exp, out)
+	}
+	if exp.isNull() || out.isNull() {
+		return exp.isNull() && out.isNull()
+	}
+	if exp.k != out.k {
+		return false
+	}
+	switch exp.k {
+	case jNum:
+		if anyNumber || numEqual(exp.n, out.n) {
+			return true
+		}
+		if o.Truncate {
+			a, ea := strconv.ParseFloat(exp.n, 64)
+			b, eb := strconv.ParseFloat(out.n, 64)
+			return ea == nil && eb == nil && a == b
+		}
+		return false
+	case jStr:
+		if exp.s == out.s {
+			return true
+		}
+		to, hit := o.Rename[exp.s]
+		return hit && to == out.s
+	case jArr:
+		if len(exp.a) != len(out.a) {
+			return false
+		}
+		for i := range exp.a {
+			if !jequalUnder(exp.a[i], out.a[i], o, anyNumber) {
+				return false
+			}
+		}
+		return true
+	case jObj:
+		if len(exp.keys) != len(out.keys) {
+			return false
+		}
+		for i, k := range exp.keys {
+			c := out.get(k)
+			if c == nil || !jequalUnder(exp.vals[i], c, o, anyNumber) {
+				return false
+			}
+		}
+		return true
+	}
+	return jequal(exp, out)
+}
+
 func messageClass(m string) string {
 	switch {
-	case strings.HasPrefix(m, "Cannot return null for non-nullable field"):
+	case strings.HasPrefix(m, "Cannot return null for non-nullable"):
 		return "non-null"
 	case strings.HasPrefix(m, "Object cannot represent"):
 		return "object-kind"
